@@ -174,6 +174,20 @@ fn c01(tier: &str) -> i32 {
             }
         }
     }
+    if tier == "quick" {
+        // a two-commit winning branch whose second commit reaches a SQLite bystander first (any order): what the rollback
+        // names for re-fetching comes out of the SQLite retry query
+        if let Some((sc, conv)) = families::chains(2, 5).into_iter().find(|(s, _)| s.name.starts_with("chain2-w0-l1-o0")) {
+            let mut j = E1Job::new(sc).backend(lab::Bk::Sqlite);
+            if !conv {
+                j = j.no_converge();
+            }
+            j.regimes = vec![explore::Regime::Unrestricted];
+            j.members = Some(vec!["Z".into()]);
+            j.with_local_ops = false;
+            jobs.push(j);
+        }
+    }
     rep.add_count("scenario_descriptions", jobs.len() as u64);
     run_e1(jobs, &|cx, rep, job| { props_e1::check_c01(cx, rep, job.expect_converge); }, &mut rep);
     // the same scenarios on one unforked SQLite connection each (canonical order, until nothing changes)
@@ -251,6 +265,15 @@ fn c07(tier: &str) -> i32 {
         v.extend(families::one_round(&["A", "B", "C", "Z"], &["A", "B"], 2, false));
     }
     let mut jobs = jobs_from(v);
+    if tier == "quick" {
+        // a queued proposal offered again after the commit that covers it has been applied (and a message of the new epoch stored)
+        use scenario::{ActKind, act};
+        let sc = families::base("late-proposal-after-commit-and-message", &["A", "B", "C", "Z"], &["A", "B"], &[], vec![act("C", ActKind::Leave, 5), act("A", ActKind::CommitLeave("C.leave0".into()), 10).then(vec![act("A", ActKind::Msg("after-the-leave".into()), 20)])]);
+        let mut j = E1Job::new(sc);
+        j.regimes = vec![explore::Regime::Causal];
+        j.members = Some(vec!["Z".into()]);
+        jobs.push(j);
+    }
     if tier != "quick" {
         let mut sq = families::c01_quick();
         sq.extend(families::c02_quick());
@@ -301,6 +324,9 @@ fn c07(tier: &str) -> i32 {
         jobs.push(j);
     }
     run_e1(jobs, &|cx, rep, _| props_e1::check_c07(cx, rep), &mut rep);
+    // sender role, every stored field (the processing time is wall-clock and therefore not part of the graphs' observation)
+    scripted::c07_own_echo_fields(&mut rep, lab::Bk::Memory);
+    scripted::c07_own_echo_fields(&mut rep, lab::Bk::Sqlite);
     rep.finish()
 }
 
@@ -343,6 +369,34 @@ fn c08(tier: &str) -> i32 {
                 j.regimes = vec![explore::Regime::Causal];
                 j.world_hook = Some(rewrapped_winner_hook);
                 j.members = Some(vec!["Z".into(), "C".into()]);
+                jobs.push(j);
+            }
+        }
+    }
+    // an admin's commit whose group-data extension cannot be decoded (built directly with OpenMLS) is in the pool next to the
+    // scripted history: in every state it is offered in, record and MLS state still agree afterwards
+    {
+        fn undecodable_group_data_hook(w: &mut scenario::World) {
+            let Some(admin) = w.sc.admins.iter().find(|a| !w.pool.iter().any(|p| p.node.is_empty() && &p.author == *a)).cloned() else { return };
+            let Some(c) = w.nodes.get(&vec![]).and_then(|n| n.clients.get(&admin)).map(|c| c.fork()) else { return };
+            let gid = w.gid.clone();
+            let Some(base_ext) = with_mdk!(c, m => m.load_mls_group(&gid)).ok().flatten().and_then(|g| mdk_core::extension::NostrGroupDataExtension::from_group(&g).ok()) else { return };
+            let mut raw = shapes::RawExt::of(&base_ext);
+            raw.image_key = vec![1u8; 5];
+            let pks = w.pks_by_name.clone();
+            let pk_of = move |n: &str| pks.get(n).and_then(|h| nostr::PublicKey::from_hex(h).ok());
+            if let Ok(ev) = adversary::raw_commit(&c, &gid, &adversary::CommitContent::RawGroupData(raw.encode()), &pk_of, None, w.base_ts + 900) {
+                w.pool.push(scenario::PoolEvent { label: format!("n.{admin}.commit-with-undecodable-group-data"), event: ev, kind: scenario::EvKind::Commit, act: scenario::ActKind::Rename("undecodable".into()), author: admin, node: vec![], child: None, ts: 900, rumor: None });
+                let idx = w.pool.len() - 1;
+                w.settle_order.push(idx);
+            }
+        }
+        for (sc, _) in families::c08_quick().into_iter().filter(|(s, _)| s.name == "image-set-clear") {
+            for bk in [lab::Bk::Memory, lab::Bk::Sqlite] {
+                let mut j = E1Job::new(sc.clone()).backend(bk);
+                j.regimes = vec![explore::Regime::Causal];
+                j.world_hook = Some(undecodable_group_data_hook);
+                j.members = Some(vec!["Z".into(), "A".into()]);
                 jobs.push(j);
             }
         }
@@ -486,6 +540,44 @@ fn c02(tier: &str) -> i32 {
             jobs.push(j);
         }
     }
+    // another member files a message of its own under the id of a stored message (the rumor's id field is the sender's to
+    // fill in): whatever the order, the stored message keeps what its sender gave it
+    {
+        fn forged_id_hook(w: &mut scenario::World) {
+            let Some(victim) = w.pool.iter().position(|p| p.kind == scenario::EvKind::Msg && p.node.is_empty() && p.rumor.is_some()) else { return };
+            let forger = if w.pool[victim].author == "A" { "B" } else { "A" };
+            let Some(c) = w.nodes.get(&vec![]).and_then(|n| n.clients.get(forger)).map(|c| c.fork()) else { return };
+            let mut r = lab::rumor(&c.keys, "filed-under-another-message's-id", w.base_ts + 7);
+            r.id = w.pool[victim].rumor.as_ref().and_then(|x| x.id);
+            let gid = w.gid.clone();
+            if let Ok(ev) = with_mdk!(c, m => m.create_message(&gid, r)) {
+                w.pool.push(scenario::PoolEvent { label: format!("n.{forger}.msg-under-the-id-of-{}", w.pool[victim].label), event: ev, kind: scenario::EvKind::Msg, act: scenario::ActKind::Msg("forged-id".into()), author: forger.into(), node: vec![], child: None, ts: 7, rumor: None });
+                let idx = w.pool.len() - 1;
+                w.settle_order.push(idx);
+            }
+        }
+        for (sc, _) in families::c02_quick().into_iter().filter(|(s, _)| s.name == "msg-bystander-race" || (tier != "quick" && s.name == "msg-across-commit")) {
+            for bk in if tier == "quick" { vec![lab::Bk::Memory] } else { vec![lab::Bk::Memory, lab::Bk::Sqlite] } {
+                let mut j = E1Job::new(sc.clone()).backend(bk);
+                j.regimes = vec![explore::Regime::Causal];
+                j.world_hook = Some(forged_id_hook);
+                j.members = Some(vec!["Z".into(), "B".into()]);
+                jobs.push(j);
+            }
+        }
+    }
+    // a proposal of the previous epoch (published before the commit that covers it) arrives or is offered again after the
+    // commit and a message of the new epoch: the only branch there is, its messages stay stored and valid
+    {
+        use scenario::{ActKind, act};
+        let sc = families::base("late-proposal-after-commit-and-message", &["A", "B", "C", "Z"], &["A", "B"], &[], vec![act("C", ActKind::Leave, 5), act("A", ActKind::CommitLeave("C.leave0".into()), 10).then(vec![act("A", ActKind::Msg("after-the-leave".into()), 20)])]);
+        for bk in if tier == "quick" { vec![lab::Bk::Memory] } else { vec![lab::Bk::Memory, lab::Bk::Sqlite] } {
+            let mut j = E1Job::new(sc.clone()).backend(bk);
+            j.regimes = vec![explore::Regime::Causal];
+            j.members = Some(vec!["Z".into()]);
+            jobs.push(j);
+        }
+    }
     // forward window much larger than the tolerance (and the other way round in the thorough tier): per-delivery oracle only
     let mut fj = vec![families::fwd_jump(5, 1, 100)];
     if tier != "quick" {
@@ -603,6 +695,8 @@ fn c03(tier: &str) -> i32 {
             families::base("removal-wins-vs-selfupdate", &m, &ad, &[], vec![act("A", ActKind::Remove("X".into()), 10).then(vec![act("Z", ActKind::Msg("after-removal".into()), 5)]), act("C", ActKind::SelfUpdate, 20)]),
             families::base("removal-wins-vs-rename", &m, &ad, &[], vec![act("A", ActKind::Remove("X".into()), 10).then(vec![act("Z", ActKind::Msg("after-removal".into()), 5)]), act("B", ActKind::Rename("loser".into()), 20)]),
         ];
+        // the committer of the losing commit also has a chat message of its own in flight: its echo is not the echo of the commit
+        v.push(families::base("removal-wins-vs-selfupdate-with-own-message", &m, &ad, &[], vec![act("C", ActKind::Msg("before-the-race".into()), 5), act("A", ActKind::Remove("X".into()), 10), act("C", ActKind::SelfUpdate, 20)]));
         if tier != "quick" {
             v.push(families::base("removal-wins-on-tie", &m, &ad, &[], vec![act("A", ActKind::Remove("X".into()), 10).nib(1), act("B", ActKind::Rename("loser".into()), 10).nib(9)]));
         }
@@ -614,6 +708,20 @@ fn c03(tier: &str) -> i32 {
                 j.members = Some(vec!["A".into(), "B".into(), "C".into(), "Z".into()]);
                 jobs2.push(j);
             }
+        }
+        // the same race with restarts of the receiving client between the deliveries (SQLite): a removal that has been
+        // applied stays applied when the losing commit arrives after a restart
+        for sc in ["removal-wins-vs-selfupdate", "removal-wins-vs-rename"].iter().take(if tier == "quick" { 1 } else { 2 }) {
+            let sc = match *sc {
+                "removal-wins-vs-selfupdate" => families::base("removal-wins-vs-selfupdate", &m, &ad, &[], vec![act("A", ActKind::Remove("X".into()), 10), act("C", ActKind::SelfUpdate, 20)]),
+                _ => families::base("removal-wins-vs-rename", &m, &ad, &[], vec![act("A", ActKind::Remove("X".into()), 10), act("B", ActKind::Rename("loser".into()), 20)]),
+            };
+            let mut j = E1Job::new(sc).backend(lab::Bk::Sqlite);
+            j.regimes = vec![explore::Regime::Causal];
+            j.with_restart = true;
+            j.with_local_ops = false;
+            j.members = Some(if tier == "quick" { vec!["Z".into()] } else { vec!["Z".into(), "B".into()] });
+            jobs2.push(j);
         }
         run_e1(jobs2, &|cx, rep, _| props_e1::check_c03_roster(cx, rep), &mut rep);
     }
